@@ -376,6 +376,84 @@ theorem findTopic_correct (ts : List MTopic) (hs : SortedTopics ts) (n : String)
           exact String.lt_irrefl _ (he ▸ this)
       rw [hnone]; rfl
 
+/-! ### the normalised cache is sorted -/
+
+theorem mem_insertBy {α : Type} (lt : α → α → Bool) (x z : α) (l : List α) :
+    z ∈ insertBy lt x l ↔ z = x ∨ z ∈ l := by
+  induction l with
+  | nil => simp [insertBy]
+  | cons y ys ih =>
+    simp only [insertBy]
+    split
+    · simp
+    · simp only [List.mem_cons, ih]
+      constructor
+      · rintro (h | h | h)
+        · exact Or.inr (Or.inl h)
+        · exact Or.inl h
+        · exact Or.inr (Or.inr h)
+      · rintro (h | h | h)
+        · exact Or.inr (Or.inl h)
+        · exact Or.inl h
+        · exact Or.inr (Or.inr h)
+
+theorem mem_sortBy {α : Type} (lt : α → α → Bool) (z : α) (l : List α) : z ∈ sortBy lt l ↔ z ∈ l := by
+  induction l with
+  | nil => simp [sortBy]
+  | cons x xs ih => simp [sortBy, mem_insertBy, ih]
+
+theorem str_lt_of_not_lt_ne {a b : String} (h : ¬ a < b) (hne : a ≠ b) : b < a := by
+  apply Classical.byContradiction
+  intro h'
+  exact hne (String.le_antisymm (String.not_lt.mp h') (String.not_lt.mp h))
+
+/-- inserting a fresh name into a name-sorted list keeps it name-sorted -/
+theorem insertBy_sorted (x : MTopic) (l : List MTopic) (hs : SortedTopics l) (hx : ∀ y ∈ l, y.name ≠ x.name) :
+    SortedTopics (insertBy (fun a b => decide (a.name < b.name)) x l) := by
+  induction l with
+  | nil => simp [insertBy, SortedTopics]
+  | cons y ys ih =>
+    unfold SortedTopics at hs ⊢
+    rw [List.pairwise_cons] at hs
+    simp only [insertBy]
+    split
+    · next hlt =>
+      have hxy : x.name < y.name := by simpa using hlt
+      rw [List.pairwise_cons]
+      refine ⟨?_, List.pairwise_cons.mpr hs⟩
+      intro z hz
+      rcases List.mem_cons.mp hz with rfl | hz
+      · exact hxy
+      · exact String.lt_trans hxy (hs.1 z hz)
+    · next hnlt =>
+      have hnxy : ¬ x.name < y.name := by simpa using hnlt
+      have hyx : y.name < x.name := str_lt_of_not_lt_ne hnxy (fun h => hx y List.mem_cons_self h.symm)
+      rw [List.pairwise_cons]
+      refine ⟨?_, ih hs.2 (fun z hz => hx z (List.mem_cons_of_mem _ hz))⟩
+      intro z hz
+      rcases (mem_insertBy _ x z ys).mp hz with rfl | hz
+      · exact hyx
+      · exact hs.1 z hz
+
+/-- `sort.Slice` by name (modelled as insertion sort) of topics with pairwise distinct names is strictly sorted -/
+theorem sortBy_sorted (l : List MTopic) (hnd : (l.map (·.name)).Nodup) :
+    SortedTopics (sortBy (fun a b => decide (a.name < b.name)) l) := by
+  induction l with
+  | nil => simp [sortBy, SortedTopics]
+  | cons x xs ih =>
+    simp only [List.map_cons, List.nodup_cons] at hnd
+    simp only [sortBy]
+    apply insertBy_sorted x _ (ih hnd.2)
+    intro y hy heq
+    exact hnd.1 (List.mem_map.mpr ⟨y, (mem_sortBy _ y xs).mp hy, heq⟩)
+
+/-- the cache `update` stores is sorted by topic name -/
+theorem normalize_sorted (m : MResponse) (hnd : (m.topics.map (·.name)).Nodup) : SortedTopics (normalize m).topics := by
+  unfold SortedTopics
+  simp only [normalize]
+  rw [List.pairwise_map]
+  exact sortBy_sorted m.topics hnd
+
 /-! ### the metadata cache and the connection groups -/
 
 /-- the pool has a connection group for exactly the brokers of its cached layout, and each group's dial
@@ -459,9 +537,19 @@ theorem conns_update (oldB newB : List (Int × Broker)) (conns : List (Int × Ad
         simp [h1, h0, ho, hn]
       · simp [h1, h0, ho, hn, hb, lookupD]
 
-theorem update_connsInv (s : PoolState) (m : Option MResponse) (err : Bool) (h : ConnsInv s) :
-    ConnsInv (update s m err) := by
+/-- with the whole-struct comparison of the source, "differs" is inequality of the entries -/
+theorem differs_eq (hc : KV.Gen.Routing.updateCompare = .whole) (b1 : Broker) (o : Option Broker) :
+    differs b1 o = (some b1 != o) := by
+  cases o with
+  | none => simp [differs]
+  | some b2 =>
+    simp only [differs, hc, brokersDiffer]
+    by_cases h : b1 = b2 <;> simp [h, bne]
+
+theorem update_connsInv (hc : KV.Gen.Routing.updateCompare = .whole) (s : PoolState) (m : Option MResponse) (err : Bool)
+    (h : ConnsInv s) : ConnsInv (update s m err) := by
   unfold update
+  simp only [differs_eq hc]
   cases err with
   | true =>
     simp only [↓reduceIte]
